@@ -58,6 +58,7 @@ import PyElf.Proofs.DieChildren
 import PyElf.Spec.DieSection
 import PyElf.Model.DieSection
 import PyElf.Proofs.DieSection
+import PyElf.Proofs.SigCache
 import PyElf.Props.TieC04
 namespace PyElf.Props.C04
 open PyElf PyElf.Spec PyElf.Spec.C04 PyElf.Model.C04 PyElf.Proofs PyElf.Proofs.C04
@@ -544,6 +545,60 @@ theorem ref_sig8_absent (G : UnitCtx → Nat → R DieObs) (units : List (Model.
     | ok s =>
       have : ¬ s = sig := fun e => hne (by rw [hg, e])
       simp [this])]
+
+/-- a scan that raised: the signature map is published only when `_parse_debug_types` completes, so EVERY lookup —
+    whatever the signature, whatever the units scanned before the failure — re-raises the scan's exception -/
+theorem ref_sig8_scan_error (G : UnitCtx → Nat → R DieObs) (units : List (Model.Lookup.CU × R UnitCtx)) (e : Err)
+    (sig : Int) : dieBySig8 G units (some e) sig = .error e := by
+  unfold dieBySig8
+  rfl
+
+/-- a malformed `.debug_types` is met first: its exception is what `get_DIE_by_sig8` raises, whatever `.debug_info`
+    holds (the DWARF 5 type units of `.debug_info` are only looked at after `.debug_types` has been walked) -/
+theorem sig_scan_types_error_first (w : DInfo) (S0 : DwarfStructs) (e : Err)
+    (h : (sectionUnits w S0 w.types true).2 = some e) : (sigUnits w S0).2 = some e := by
+  unfold sigUnits
+  simp only [h]
+
+/-- … and with a clean `.debug_types` a malformed unit anywhere in `.debug_info` — type unit or not — fails every
+    signature lookup (`_parse_CUs_iter` walks every unit header) -/
+theorem sig_scan_info_error (w : DInfo) (S0 : DwarfStructs) (e : Err)
+    (ht : (sectionUnits w S0 w.types true).2 = none) (hi : (sectionUnits w S0 w.info false).2 = some e) :
+    (sigUnits w S0).2 = some e := by
+  unfold sigUnits
+  simp only [ht, hi]
+
+/-- one lookup on a freshly opened object, written with the cache model's vocabulary, is `sig8Lookup` -/
+theorem sig8_stateless_eq (G : UnitCtx → Nat → R DieObs) (w : DInfo) (S0 : DwarfStructs) (sig : Int) :
+    Model.SigCache.stateless (sigUnits w S0) (fun us s => dieBySig8 G us none s) sig = sig8Lookup G w S0 sig := by
+  unfold sig8Lookup Model.SigCache.stateless
+  generalize sigUnits w S0 = p
+  obtain ⟨us, e⟩ := p
+  cases e with
+  | none => rfl
+  | some err => exact (ref_sig8_scan_error G us err sig).symm
+
+/--
+  sig8_history_independent (C10's clause for this cache, stated where its ingredients live).  `get_DIE_by_sig8`
+  answers through the lazily built `_type_units_by_sig` (Model/SigCache: `None` until a scan of both sections has
+  COMPLETED; a scan that raises publishes nothing).  For ANY file (no well-formedness), after ANY history of signature
+  lookups — repeated, absent, failing — every answer is the one a freshly opened object gives (`sig8Lookup`, the
+  function `ref_sig8_debug_types` / `ref_sig8_debug_info_v5` / `ref_sig8_absent` are about), and the state stays
+  reachable.  The driver runs exactly this `run` beside the stateless lookups and the harness compares both with the
+  library's answers on one `DWARFInfo` object and with `_type_units_by_sig is not None`.
+-/
+theorem sig8_history_independent (G : UnitCtx → Nat → R DieObs) (w : DInfo) (S0 : DwarfStructs) (sigs : List Int) :
+    (Model.SigCache.run (sigUnits w S0) (fun us s => dieBySig8 G us none s) Model.SigCache.St.init sigs).1
+      = sigs.map (sig8Lookup G w S0) := by
+  rw [(Proofs.SigCache.run_answers (sigUnits w S0) (fun us s => dieBySig8 G us none s) sigs _
+    (Proofs.SigCache.inv_init _)).1]
+  exact List.map_congr_left (fun s _ => sig8_stateless_eq G w S0 s)
+
+/-- the map is published exactly when a lookup happened and the scan completes -/
+theorem sig8_published_iff (G : UnitCtx → Nat → R DieObs) (w : DInfo) (S0 : DwarfStructs) (sigs : List Int) :
+    (Model.SigCache.run (sigUnits w S0) (fun us s => dieBySig8 G us none s) Model.SigCache.St.init sigs).2.map.isSome
+      = (!sigs.isEmpty && (sigUnits w S0).2.isNone) :=
+  Proofs.SigCache.run_published _ _ sigs
 
 /-! ### whole sections, end to end -/
 
